@@ -204,7 +204,7 @@ def run(out):
         # every combination of the numbering / repeater symbols (the modifiers after $ and @ only combine at length 4 and more)
         ('markup-numbering', 'markup', dict(constants={'Alphabet': {"$", "@", "^", "-", "1", "*", "a"}, 'MaxLen': 4 if quick else 6})),
         # every sequence of syntactic fragments (Fragments.tla): shapes that need six to ten characters
-        ('markup-fragments', 'markup', dict(module='Fragments', constants={'Frags': FRAG_M | {"c", "lorem", "{${1}}", "!"}, 'MaxFrag': 3 if quick else 4})),
+        ('markup-fragments', 'markup', dict(module='Fragments', constants={'Frags': FRAG_M | {"c", "lorem", "{${1}}", "!", "*3"}, 'MaxFrag': 3 if quick else 4})),
         ('css-fragments', 'css', dict(module='Fragments', constants={'Frags': FRAG_C, 'MaxFrag': 3 if quick else 4})),
         ('css-exhaustive', 'css', dict(constants={'Alphabet': CSS_ALPHA, 'MaxLen': 3 if quick else 4})),
         ('css-structural', 'css', dict(constants={'Alphabet': STRUCT_C, 'MaxLen': 10 if quick else 14},
